@@ -42,14 +42,21 @@ type Kind struct {
 	API    string // the entry point exercised
 	Exempt string // "" | "reuse" | "buf": the documented exceptions of the property statement
 	Run    func(inst any) Out
+	// Ref, when set, computes the reference of this kind instead of a run on a fresh instance: the same call with the
+	// OUTER instance private to the caller (re-entrancy kinds: a defect that shows inside one pooled call is also there on
+	// an empty pool, so "fresh pool" is no reference for it).
+	Ref func() Out
 }
 
 // Family is one instance type (or one pool) with its menu.
 type Family struct {
-	Name   string
-	Pooled bool
-	New    func() any
-	Kinds  []Kind
+	Name string
+	// FreshPools: an instance family (New) whose kinds also call the pooled package-level functions: every history starts
+	// with emptied pools AND a new instance, under GOMAXPROCS(1).
+	FreshPools bool
+	Pooled     bool
+	New        func() any
+	Kinds      []Kind
 }
 
 var none = map[string]any{"t": "none"}
@@ -207,9 +214,10 @@ func handed(o *Out) any {
 // replay runs one history on one instance and returns its events.
 func replay(f *Family, names []string, in *interner) []event {
 	var inst any
-	if f.Pooled {
+	if f.Pooled || f.FreshPools {
 		freshPools()
-	} else {
+	}
+	if !f.Pooled {
 		inst = f.New()
 	}
 	evs := make([]event, 0, len(names))
@@ -259,6 +267,12 @@ func fresh(in *interner, only string) map[string]map[string]int {
 			k := &f.Kinds[j]
 			var ids [2]int
 			for t := 0; t < 2; t++ {
+				if k.Ref != nil {
+					freshPools()
+					o := runCall(&Kind{Name: k.Name, Run: func(any) Out { return k.Ref() }}, nil)
+					ids[t] = in.id(o.Res)
+					continue
+				}
 				ev := replay(f, []string{k.Name}, in)
 				ids[t] = ev[0].R
 			}
